@@ -65,6 +65,48 @@ CHECKS = {
             "FORSYS_VERIF hook record after cross-check with an independent reconstruction. lmfit judged by a 1e-4 "
             "relative objective gap. fix_stress is known finding D5.",
             "DESIGN.md 4/C05"),
+    "C06": ("property-based testing (Hypothesis): metamorphic comparison of two independently posed copies of a tissue; "
+            "unit changes on manufactured time series",
+            "Generated-input exploration: the same tissue in two drawn poses (scale 1e-3..1e3, shift up to 1e4 sizes, "
+            "reflection, rotation incl. near-axis) must give the same tension per physical interface and pressure per "
+            "physical cell, and coefficient pairs related by the relative rotation/reflection; with adimensional "
+            "velocities a 2-frame series must give the same tensions after multiplying all time stamps or all "
+            "lengths by 1e-3..1e3.",
+            "Trusted: certified NNLS reference for the tolerance. Off equilibrium only translation and scaling are "
+            "compared (rotation/reflection non-invariance of the formulation is known finding D24); D1 avoided by "
+            "construction in both poses.",
+            "DESIGN.md 4/C06"),
+    "C07": ("property-based testing (Hypothesis) + exhaustive enumeration of all 2^cells orientation patterns of small "
+            "tissues: metamorphic comparison of relabelled meshes",
+            "Generated-input exploration: canonical vs relabelled mesh (random injective vertex/edge/cell ids with "
+            "gaps, cyclic shifts, flipped cells) of exact and noisy tissues: same internal interfaces as physical "
+            "point sequences, same junction rows and supports, coefficient pairs equal within fit noise, same tension "
+            "per interface and pressure per cell. All orientation patterns of 5..9-cell tissues are enumerated.",
+            "Trusted: both runs see bit-identical coordinates; certified NNLS reference for the tolerance. Two "
+            "interfaces joining the same junction pair cannot arise from Voronoi-derived tissues (not covered).",
+            "DESIGN.md 4/C07"),
+    "C10": ("stateful property-based testing (Hypothesis RuleBasedStateMachine) against a reference model = fresh "
+            "object performing only the last build and solve",
+            "Generated-history exploration: up to 12 API calls (build_force_matrix / solve_stress / "
+            "build_pressure_matrix / solve_pressure / get_system_velocity_per_frame) over the frames of a generated "
+            "series, any frame order, any mix of back-ends, b_matrix modes, fits, angle limits; after every solve "
+            "and pressure solve the observable results are compared with a fresh object; structural invariants "
+            "(stores keyed by frame, interface and mesh-edge tensions, table ids) after every step; a step that "
+            "crashes only after the history (not on a fresh object) is a violation.",
+            "Trusted: the model 'pure function of frame data and last arguments'; numpy error state is reset at the "
+            "start of each history only. fix_stress (D5) not generated. Saved histories in regress/C10 are replayed "
+            "first.",
+            "DESIGN.md 4/C10"),
+    "C16": ("property-based testing (Hypothesis): analytic opening angles -> expected flagged junctions and excluded "
+            "interfaces; KKT certificate on the restricted system",
+            "Generated-input exploration: limits in [0.5pi, pi] and the two defaults, static and velocity modes, "
+            "default and lsq back-ends with user initial conditions: excluded set, -1 positions, remaining interface "
+            "list, restricted rows/coefficients vs an unlimited fresh matrix, optimality of the remaining values, "
+            "'default limit excludes nothing'.",
+            "Trusted: closed-form tangents for internal interfaces; directions of multi-arc border interfaces are "
+            "read from forsys itself. Cases with an opening angle within the coefficient uncertainty of the limit "
+            "are skipped and counted.",
+            "DESIGN.md 4/C16"),
     "C08": ("exhaustive enumeration of all cell subsets of small tissues + property-based testing (Hypothesis) against "
             "an independent graph-walk decomposition",
             "Exploration with an exhaustive core: all 2^n cell subsets (n<=10) of several base tissues and lattices, "
